@@ -50,7 +50,7 @@ register(PropertySpec(
              "(shared with C04) that reset reaches every node of the tree"),
         Rule("PRED-ARGS", _lazy("predform", "rule_predicate_args"), 1,
              "a @predicate call inside a block binds its positional arguments by position (also to parameters that have a default)"),
-        Rule("CALL-FORWARD", _lazy("extra", "rule_call_forward"), 2,
+        Rule("CALL-FORWARD", _lazy("extra", "rule_call_forward"), 1,
              "a symbolic method call applies the method with all the positional and keyword arguments it was built with"),
         Rule("COVERAGE-SUBSUMPTION", _lazy("cacheidx", "rule_coverage_subsumption"), 4,
              "(shared with C20) result caches are on by default: a coverage test that over-approximates loses rows on re-evaluation of any query"),
@@ -661,7 +661,7 @@ register(PropertySpec(
         Rule("VALUE-NOT-TESTED", _lazy("values", "rule_value_not_tested"), 8,
              "the payload of a bound value is tested for truth only where the test decides _is_false_ (condition position), never to "
              "decide whether to skip, wrap, flatten or accumulate it"),
-        Rule("CALL-FORWARD", _lazy("extra", "rule_call_forward"), 2,
+        Rule("CALL-FORWARD", _lazy("extra", "rule_call_forward"), 1,
              "a symbolic method call applies the method with all the positional and keyword arguments it was built with"),
         Rule("KWARGS-KEPT", _lazy("extra", "rule_kwargs_kept"), 3,
              "no given keyword (field constraint / constructor argument) is dropped because of its value"),
@@ -859,7 +859,7 @@ register(PropertySpec(
              "binding dict, never a user object"),
         Rule("PRED-ARGS", _lazy("predform", "rule_predicate_args"), 1,
              "a @predicate call inside a block binds its positional arguments by position (also to parameters that have a default)"),
-        Rule("CALL-FORWARD", _lazy("extra", "rule_call_forward"), 2,
+        Rule("CALL-FORWARD", _lazy("extra", "rule_call_forward"), 1,
              "a symbolic method call applies the method with all the positional and keyword arguments it was built with"),
         Rule("ROW-FRESH", _lazy("extra", "rule_row_fresh"), 1,
              "(shared with C02) incl. the exception for Union.evaluate_right, which stands only while or_ never builds a Union"),
